@@ -117,7 +117,7 @@ fn main() {
          1..=132 x 1..=60 in three allocation shapes; every byte is fed through print_char in a worker process; Ok/Err accepted, panic/abort is a violation. \
          Non-trivial: the stream contains >= 2 control lead-in bytes of its emulation AND touched the screen (row allocated, cursor moved or height grew); distinct by hash of (emulation,size,shape,bytes).",
     );
-    eng.assume("release profile semantics (overflow-checks off, debug-assertions off), as a user of the shipped crate sees it");
+    eng.assume("built with overflow checks and debug assertions ON at opt-level 2 (profile `checked`): panics that only a debug build of a front end would hit count as well");
     eng.assume("numeric parameters capped at 9999 here; magnitude-driven work is C03's subject; timeouts and heap-cap hits (2 GiB) are counted as inconclusive, not as violations (C03 owns time and memory)");
     eng.generated_min(PartCfg::new("streams", 900_000, 12_000_000).isolated().timeout_ms(30_000).heapcap_is_violation(false), || cases(40), check, classify, minimize);
     eng.generated_min(PartCfg::new("long_streams", 15_000, 300_000).isolated().timeout_ms(60_000).heapcap_is_violation(false), || cases(400), check, classify, minimize);
